@@ -183,12 +183,20 @@ func LockReleased(l any, write bool) {
 }
 
 // Access is called by the instrumented code before a statement that reads or
-// writes a map-typed struct field (obj = the field's address). Not a
-// scheduling point. With Config.Lockset the access is checked against the
+// writes a struct field (obj = the field's address). A write is a scheduling
+// point, a read is not. With Config.Lockset the access is checked against the
 // lockset discipline; the first violation per field is recorded.
 func Access(obj any, site string, write bool) {
 	s := cur
-	if s == nil || !s.cfg.Lockset {
+	if s == nil {
+		return
+	}
+	if write {
+		// a plain write to a field is a point where another task may get in
+		// (check-then-act on unsynchronised fields becomes explorable)
+		yield(site, nil, nil, false)
+	}
+	if !s.cfg.Lockset {
 		return
 	}
 	t := s.taskOf()
@@ -246,7 +254,7 @@ func Access(obj any, site string, write bool) {
 		if write {
 			mode = "write"
 		}
-		s.res.Races = append(s.res.Races, fmt.Sprintf("%s of a shared map field at %s by task %s holding %d lock(s) in a protecting mode: no lock protects every access (last read at %s, last write at %s)", mode, site, t.id, len(prot), orNone(o.lastSite[0]), orNone(o.lastSite[1])))
+		s.res.Races = append(s.res.Races, fmt.Sprintf("%s of a shared field at %s by task %s holding %d lock(s) in a protecting mode: no lock protects every access (last read at %s, last write at %s)", mode, site, t.id, len(prot), orNone(o.lastSite[0]), orNone(o.lastSite[1])))
 	}
 }
 
